@@ -339,8 +339,8 @@ func bufferStateObservers(c *core.Ctx, rule string) {
 
 // ---------------------------------------------------------------- partial struct copy
 
-// partialStructCopy: when a function moves an element of a struct type from one place to another field by field
-// (dst.f = g(src.f) for at least two fields f of the same two objects), every field of the struct must be carried
+// partialStructCopy: when a function moves an element of a slice of structs to another index of the same slice field by
+// field (s[i].f = g(s[j].f) for at least two fields f), every field of the struct must be carried
 // over (or assigned in that function): a field left behind keeps the value of the element that used to live in the
 // destination slot (seed C06-7: the cached line text of a delivered line stayed in the shifted slot).
 func partialStructCopy(c *core.Ctx, rule string, pkgs []string) {
@@ -450,7 +450,12 @@ func sameFieldSource(v ssa.Value, fv *types.Var, dst ssa.Value, d int) ssa.Value
 		if x.Op == token.MUL {
 			if fa, ok := x.X.(*ssa.FieldAddr); ok && core.FieldOfAddr(fa) == fv && fa.X != dst && canonAddr(fa.X, 0) != canonAddr(dst, 0) &&
 				types.Identical(fa.X.Type(), dst.Type()) {
-				return fa.X
+				// both are elements of one and the same slice/array: an element is being moved inside its container
+				si, ok1 := fa.X.(*ssa.IndexAddr)
+				di, ok2 := dst.(*ssa.IndexAddr)
+				if ok1 && ok2 && canonAddr(si.X, 0) == canonAddr(di.X, 0) {
+					return fa.X
+				}
 			}
 		}
 		return nil
@@ -532,4 +537,128 @@ func canonAddr(v ssa.Value, d int) string {
 		return canonAddr(x.X, d+1)
 	}
 	return fmt.Sprintf("%p", v)
+}
+
+// resliceGrowthInit: `s = s[:len(s)+k]` re-exposes slots of the backing array that still hold what an earlier element
+// left there. A function that grows a slice of structs this way must initialise the exposed element completely — by
+// storing a whole element value, or by assigning every field of the element type — before anything reads it (seed C10-7:
+// a stack frame was re-used with its occurrence counter left over from the previous record).
+func resliceGrowthInit(c *core.Ctx, rule string, pkgs []string) {
+	c.SSA()
+	n := 0
+	for _, f := range c.RepoFunctions() {
+		if core.IsCLIOrSample(core.FuncPkg(f)) || !inPkgs(core.FuncPkg(f), pkgs) {
+			continue
+		}
+		for _, b := range f.Blocks {
+			for _, in := range b.Instrs {
+				sl, ok := in.(*ssa.Slice)
+				if !ok || sl.High == nil {
+					continue
+				}
+				st, ok := sl.X.Type().Underlying().(*types.Slice)
+				if !ok {
+					continue
+				}
+				elemNamed := core.NamedOf(st.Elem())
+				var elemStruct *types.Struct
+				if elemNamed != nil {
+					elemStruct, _ = elemNamed.Underlying().(*types.Struct)
+				}
+				if elemStruct == nil {
+					continue
+				}
+				// High = len(X) + positive constant
+				bo, ok := sl.High.(*ssa.BinOp)
+				if !ok || bo.Op != token.ADD {
+					continue
+				}
+				isLenOfX := func(v ssa.Value) bool {
+					cl, ok := v.(*ssa.Call)
+					if !ok {
+						return false
+					}
+					bi, ok := cl.Call.Value.(*ssa.Builtin)
+					return ok && bi.Name() == "len" && len(cl.Call.Args) == 1 && (cl.Call.Args[0] == sl.X || core.SameValue(cl.Call.Args[0], sl.X))
+				}
+				if !(isLenOfX(bo.X) || isLenOfX(bo.Y)) {
+					continue
+				}
+				n++
+				key := core.FuncKey(f) + " grows []" + elemNamed.Obj().Name() + " by reslicing"
+				// initialisation in the same function: a whole-element store, or every field assigned through some *T
+				whole := false
+				fields := map[*types.Var]bool{}
+				for _, w := range core.Writes(f) {
+					if w.Kind == "struct" && w.Owner != nil && types.Identical(w.Owner, elemNamed) {
+						whole = true
+					}
+					if w.Kind == "index" {
+						if s, ok := w.Instr.(*ssa.Store); ok {
+							if pt, ok := s.Addr.Type().Underlying().(*types.Pointer); ok && types.Identical(pt.Elem(), st.Elem()) {
+								whole = true
+							}
+						}
+					}
+					if w.Kind == "field" && w.Owner != nil && types.Identical(w.Owner, elemNamed) {
+						fields[w.Field] = true
+					}
+				}
+				var missing []string
+				for i := 0; i < elemStruct.NumFields(); i++ {
+					if !fields[elemStruct.Field(i)] {
+						missing = append(missing, elemStruct.Field(i).Name())
+					}
+				}
+				switch {
+				case whole:
+					c.OK(rule, key, core.InstrPos(in), "a whole element value is stored in the same function")
+				case len(missing) == 0:
+					c.OK(rule, key, core.InstrPos(in), "every field of the element type is assigned in the same function")
+				default:
+					c.Bad(rule, key, core.InstrPos(in), "the slice is grown into its spare capacity, which re-exposes a slot holding what an earlier element left there, and the function does not initialise field(s) "+strings.Join(missing, ", ")+" of the exposed "+elemNamed.Obj().Name()+": state of an earlier record leaks into the next one")
+				}
+			}
+		}
+	}
+	c.OK(rule, "reslice growth sites", 0, fmt.Sprintf("%d growth-by-reslice site(s) over slices of structs in %v", n, pkgs))
+}
+
+func init() {
+	wrapRun("C01", func(c *core.Ctx) {
+		// a reader failure that is not of the reader's fatal type is wrapped as a per-record failure and never latched: the
+		// same failure is then returned by every later Read (no terminal result) = C05 R05c; a Read that panics returns none
+		// of the three outcomes = C03 K13 (the one subtractive slice bound on the tokenizer path)
+		if c.CountRule("R01f") == 0 {
+			importRules(c, "C05", map[string]string{"R05c": "R01f"})
+			c.Floor("R01f", 3, "csv2, fixedlength2, edi")
+		}
+		if c.CountRule("R01g") == 0 {
+			importRules(c, "C07", map[string]string{"R07a": "R01g"})
+			c.Floor("R01g", 5, "segment delimiter strip and its scanner configuration")
+		}
+	})
+	wrapRun("C10", func(c *core.Ctx) {
+		if c.CountRule("R10k") == 0 {
+			importRules(c, "C13", map[string]string{"R13b": "R10k"})
+			c.Floor("R10k", 3, "process-wide caches: keyed by everything the loader reads")
+		}
+		if c.CountRule("R10l") == 0 {
+			resliceGrowthInit(c, "R10l", []string{"idr", "extensions/omniv21"})
+		}
+		if c.CountRule("R10m") == 0 {
+			partialStructCopy(c, "R10m", []string{"idr", "extensions/omniv21"})
+		}
+	})
+	wrapRun("C05", func(c *core.Ctx) {
+		if c.CountRule("R05j") == 0 {
+			resliceGrowthInit(c, "R05j", []string{"extensions/omniv21/fileformat/flatfile", "extensions/omniv21/fileformat/edi"})
+		}
+	})
+	wrapRun("C19", func(c *core.Ctx) {
+		if c.CountRule("R19h") == 0 {
+			importRules(c, "C13", map[string]string{"R13b": "R19h"})
+			c.Floor("R19h", 3, "process-wide caches: keyed by everything the loader reads")
+		}
+	})
 }
